@@ -193,8 +193,61 @@ def _real_dot(sx, show, bind, share=False):
 
 # ---------------------------------------------------------------- Digraph.body -> clusters
 
-_NODE = re.compile(r"^\t\t(\w+)_(\d+) \[(.*)\]\n$", re.S)
-_EDGE = re.compile(r"^\t\t(\w+)_(\d+) -> (\w+)_(\d+)(?: \[(.*)\])?\n$", re.S)
+_BARE = r"[A-Za-z_\u0080-\U0010ffff][A-Za-z_0-9\u0080-\U0010ffff]*|-?(?:\.[0-9]+|[0-9]+(?:\.[0-9]*)?)"
+
+
+def _read_id(text, i):
+    """One DOT ID at text[i:]: a quoted string (\\" escapes a quote) or a bare identifier / numeral.  -> (value, next index)"""
+    if text[i] == '"':
+        i += 1
+        buf = []
+        while True:
+            c = text[i]
+            if c == "\\" and text[i + 1] == '"':
+                buf.append('"')
+                i += 2
+            elif c == '"':
+                return "".join(buf), i + 1
+            else:
+                buf.append(c)
+                i += 1
+    m = re.compile(_BARE).match(text, i)
+    if not m:
+        raise ValueError(f"no DOT identifier at {text[i:i + 20]!r}")
+    return m.group(0), m.end()
+
+
+def _read_endpoint(text, i):
+    """An edge end point `ID [: port [: compass]]` as Graphviz reads it: the node is the FIRST ID; what follows a colon is a
+    port of that node (the graphviz package writes `a:b` unquoted for a tail/head name `a:b`).  -> (node id, next index)"""
+    node, i = _read_id(text, i)
+    while i < len(text) and text[i] == ":":
+        _port, i = _read_id(text, i + 1)
+    return node, i
+
+
+def _parse_stmt(item):
+    """-> ('node', id, attrs) | ('edge', tail id, head id, attrs) for one statement line of a cluster"""
+    text = item.strip()
+    first, i = _read_endpoint(text, 0)
+    rest = text[i:].lstrip()
+    if rest.startswith("->"):
+        head, j = _read_endpoint(rest, 2 + (len(rest[2:]) - len(rest[2:].lstrip())))
+        tail_attrs = rest[j:].strip()
+        attrs = parse_attrs(tail_attrs[1:-1]) if tail_attrs.startswith("[") and tail_attrs.endswith("]") else {}
+        if tail_attrs and not attrs and tail_attrs != "[]":
+            raise ValueError(f"unexpected edge statement {item!r}")
+        return ("edge", first, head, attrs)
+    if rest.startswith("[") and rest.endswith("]"):
+        # (a node statement names the node by the whole ID, colons included, which is why the package quotes it there)
+        whole, k = _read_id(text, 0)
+        return ("node", whole if text[k:].lstrip().startswith("[") else first, parse_attrs(rest[1:-1]))
+    raise ValueError(f"unexpected item {item!r}")
+
+
+def _kind_of_id(nid):
+    m = re.match(r"^(.*)_(\d+)$", nid, re.S)
+    return m.group(1) if m else None
 
 
 def parse_attrs(text):
@@ -231,10 +284,12 @@ def parse_attrs(text):
 
 
 def parse_body(body):
+    """Digraph.body -> clusters: nodes [(id, kind part of the id or None, label)], edges [(None, tail id, None, head id, style)].
+    Ids are whole DOT node ids (strings): nothing here assumes a naming scheme."""
     clusters, cur = [], None
     for item in body:
         if item.startswith("\tsubgraph "):
-            cur = {"name": item.split()[1].replace("cluster_", ""), "nodes": [], "edges": [], "title": None}
+            cur = {"name": item.split()[1].replace("cluster_", ""), "nodes": [], "edges": [], "title": None, "other_attrs": []}
             continue
         if item == "\t}\n":
             clusters.append(cur)
@@ -242,27 +297,26 @@ def parse_body(body):
             continue
         if cur is None:
             raise ValueError(f"item outside a cluster: {item!r}")
-        m = _EDGE.match(item)
-        if m:
-            a = parse_attrs(m.group(5) or "")
+        body_text = item.strip()
+        if re.match(r"^[A-Za-z_]+=", body_text) and "->" not in body_text and not body_text.endswith("]"):
+            a = parse_attrs(body_text)  # a graph attribute of the cluster (label, color, style, ...)
+            if "label" in a:
+                cur["title"] = a["label"]
+            cur["other_attrs"] += [k for k in a if k != "label"]
+            continue
+        st = _parse_stmt(item)
+        if st[0] == "edge":
+            a = st[3]
             style = "dashed" if a.get("style") == "dashed" else a.get("label", "solid")
-            if set(a) - {"style", "label"} or style not in ("solid", "key", "value", "dashed"):
-                raise ValueError(f"unexpected edge attributes {item!r}")
-            cur["edges"].append((m.group(1), int(m.group(2)), m.group(3), int(m.group(4)), style))
-            continue
-        m = _NODE.match(item)
-        if m:
-            a = parse_attrs(m.group(3))
-            if set(a) != {"label"}:
-                raise ValueError(f"unexpected node attributes {item!r}")
-            cur["nodes"].append((int(m.group(2)), m.group(1), a["label"]))
-            continue
-        if item.startswith("\t\tlabel="):
-            cur["title"] = parse_attrs(item.strip())["label"]
-            continue
-        if item.startswith("\t\tcolor="):
-            continue
-        raise ValueError(f"unexpected item {item!r}")
+            if style not in ("solid", "key", "value", "dashed"):
+                raise ValueError(f"unexpected edge label {item!r}")
+            cur["edges"].append((None, st[1], None, st[2], style))
+        else:
+            if "label" not in st[2]:
+                if st[1] in ("node", "edge", "graph"):  # default attribute statement
+                    continue
+                raise ValueError(f"node without a label {item!r}")
+            cur["nodes"].append((st[1], _kind_of_id(st[1]), st[2]["label"]))
     return clusters
 
 
@@ -505,21 +559,22 @@ def compare(real, model_answer):
         if len(rn) != len(m["nodes"]):
             return f"{r['name']}: {len(rn)} nodes, model {len(m['nodes'])}"
         for (i, nm, lb), (mi, mnm, alts) in zip(rn, m["nodes"]):
-            if (i, nm) != (mi, mnm) or lb not in alts:
-                return f"{r['name']}: node {nm}_{i} [{lb}], model {mnm}_{mi} {alts}"
+            if i != f"{mnm}_{mi}" or lb not in alts:
+                return f"{r['name']}: node {i} [{lb}], model {mnm}_{mi} {alts}"
         # Dashed (self-reference) edges are not part of the tie: which reference resolves to which node depends
         # on object identity (this_predicate.py compares with `is` since the C16 repair), which the tree model
         # does not carry.  The property only asks that dashed edges leave reference nodes and stay inside the
         # cluster; that is judged on the real output below (walk_cluster / check_cluster), not by comparison.
+        mids = {mi: f"{mnm}_{mi}" for mi, mnm, _alts in m["nodes"]}
         re_ = [(s, d, st) for _sn, s, _dn, d, st in r["edges"] if st != "dashed"]
-        me_ = [e for e in m["edges"] if e[2] != "dashed"]
+        me_ = [(mids.get(e[0], str(e[0])), mids.get(e[1], str(e[1])), e[2]) for e in m["edges"] if e[2] != "dashed"]
         if re_ != me_:
             return f"{r['name']}: edges {re_}, model {me_}"
-        # an edge names its ends by their full node names: they must be the names of those ids
-        names = {i: nm for i, nm, _ in r["nodes"]}
-        for sn, s, dn, d, _st in r["edges"]:
-            if names.get(s) != sn or names.get(d) != dn:
-                return f"{r['name']}: edge {sn}_{s} -> {dn}_{d} names a node that does not exist"
+        # an edge names its ends by whole node ids: they must be ids of declared nodes
+        names = {i for i, _nm, _ in r["nodes"]}
+        for _sn, s, _dn, d, _st in r["edges"]:
+            if s not in names or d not in names:
+                return f"{r['name']}: edge {s} -> {d} names a node that does not exist"
     return None
 
 
@@ -700,6 +755,17 @@ def extras():
         ("lazy 'node'", lambda: lazy_p("node")), ("lazy 'digraph'", lambda: lazy_p("digraph")), ("named '∧'", lambda: NamedPredicate(name="∧")),
         ("is_list_of_p(is_int_p)", lambda: is_list_of_p(is_int_p)), ("is_str_p | all(lazy unbound)", lambda: is_str_p | all_p(lazy_p(UNBOUND_REF))),
         ("ge_le 1.5 'z' (mixed)", lambda: GeLePredicate(lower=1.5, upper="z")), ("gt_lt None None", lambda: GtLtPredicate(lower=None, upper=None)),
+        # constants whose shortest spelling is long / tiny: a label shows the constant, not a rounding of it
+        ("eq 1e-12", lambda: eq_p(1e-12)), ("gt 0.1+0.2", lambda: GtPredicate(v=0.1 + 0.2)), ("ne 1/3", lambda: ne_p(1 / 3)), ("le -2.5e-11", lambda: LePredicate(v=-2.5e-11)),
+        ("ge_le 0.1+0.2 0.3", lambda: GeLePredicate(lower=0.1 + 0.2, upper=0.3)), ("gt_lt 1e-11 2e-11", lambda: GtLtPredicate(lower=1e-11, upper=2e-11)),
+        ("ge_lt 1e300 1.0000000000000002e300", lambda: GeLtPredicate(lower=1e300, upper=1.0000000000000002e300)), ("in {1e-12, 2.5}", lambda: in_p(1e-12, 2.5)),
+        ("eq 2**70+1", lambda: eq_p(2**70 + 1)), ("ge -0.0", lambda: ge_p(-0.0)),
+        # sets whose members are equal across types, drawn one after the other in this process (and side by side in one tree)
+        ("in {1, 2}", lambda: in_p(1, 2)), ("in {True, 2}", lambda: in_p(True, 2)), ("in {1.0, 2}", lambda: in_p(1.0, 2)), ("in {0.0, 3} | in {0, 3}", lambda: in_p(0.0, 3) | in_p(0, 3)),
+        ("subset {False} & subset {0}", lambda: IsSubsetPredicate({False}) & IsSubsetPredicate({0})),
+        # names that are not DOT identifiers, on nodes that have a parent (an edge end point is parsed with port syntax node:port)
+        ("~named 'ns:p' & named 'q'", lambda: ~NamedPredicate(name="ns:p") & NamedPredicate(name="q")), ("all(lazy 'a:b') | named 'c:d:e'", lambda: all_p(lazy_p("a:b")) | NamedPredicate(name="c:d:e")),
+        ("named 'x -> y' ^ named 'n\"q'", lambda: NamedPredicate(name="x -> y") ^ NamedPredicate(name='n"q')), ("~named 'a b'", lambda: ~NamedPredicate(name="a b")),
     ]
 
 
